@@ -62,6 +62,8 @@ def apply_own(root, m):
         raise RuntimeError(f"'old' text occurs {n} times in {m['file']}")
     open(path, "w").write(s.replace(m["old"], m["new"]))
     subprocess.run([PY, "-c", f"import ast,sys;ast.parse(open({path!r}).read())"], check=True)
+    for f2, old2, new2 in m.get("more", []):
+        apply_own(root, dict(file=f2, old=old2, new=new2))
 
 
 def apply_patch(root, patch):
